@@ -7,7 +7,7 @@ use fuel_asm::{op, Instruction, RegId};
 use fuel_tx::{ConsensusParameters, GasCosts, Script, TransactionBuilder, TxParameters};
 use fuel_vm::{
     checked_transaction::Checked,
-    interpreter::MemoryInstance,
+    interpreter::{InterpreterParams, MemoryInstance},
     prelude::*,
     storage::MemoryStorage,
 };
@@ -71,6 +71,10 @@ pub fn record(o: &Opts) -> Res<()> {
     if want("mem") { mem(o, &mut out, &mut run); }
     if want("prog") { prog(o, &mut out, &mut run); }
     if want("fuzz") { fuzz(o, &mut out, &mut run); }
+    if want("gas") { gas(o, &mut out, &mut run); }
+    if want("calls") { calls(o, &mut out, &mut run); }
+    if want("assets") { assets(o, &mut out, &mut run); }
+    if want("client") { client(o, &mut out, &mut run); }
     let n = out.finish();
     eprintln!("vm: {n} events");
     Ok(())
@@ -103,7 +107,7 @@ fn alu(o: &Opts, out: &mut Out, run: &mut u64) {
         (0x47, '0'), (0x50, 'i'), (0x51, 'i'), (0x52, 'i'), (0x53, 'i'), (0x54, 'i'), (0x55, 'i'), (0x56, 'i'), (0x57, 'i'), (0x58, 'i'),
         (0x59, 'i'), (0x5a, 'i'), (0x72, 'j'),
     ];
-    let per_op = if thorough { 1500 } else { 220 };
+    let per_op = if thorough { 1500 } else { 130 };
     *run += 1;
     let mut vm = match exec_session(out, *run, &w, &mut rng, 1_000_000) { Some(v) => v, None => return };
     let pc0 = vm.registers()[RegId::PC.to_u8() as usize];
@@ -134,7 +138,7 @@ fn alu(o: &Opts, out: &mut Out, run: &mut u64) {
         }
     }
     // NIOP exhaustively over 8-bit operands (thorough) / a slice of it (quick)
-    let step = if thorough { 1 } else { 37 };
+    let step = if thorough { 1 } else { 61 };
     let mut x = 0u32;
     while x < 65536 {
         let (b, c) = ((x >> 8) as u64, (x & 0xff) as u64);
@@ -395,5 +399,319 @@ fn fuzz(o: &Opts, out: &mut Out, run: &mut u64) {
         out.ev(json!({"ev": "Seg"}));
         let mut vm = new_vm(&w);
         record_run(out, *run, &mut vm, &w, checked, json!({"driver": "fuzz"}), 20_000);
+    }
+}
+
+/// a gas schedule whose every number is drawn from 1..=hi (same shape/version as the default one)
+pub fn random_gas(rng: &mut StdRng, hi: u64) -> GasCosts {
+    fn walk(v: &mut serde_json::Value, rng: &mut StdRng, hi: u64) {
+        match v {
+            serde_json::Value::Number(_) => { *v = json!(rng.gen_range(1..=hi)); }
+            serde_json::Value::Array(a) => a.iter_mut().for_each(|x| walk(x, rng, hi)),
+            serde_json::Value::Object(o) => o.values_mut().for_each(|x| walk(x, rng, hi)),
+            _ => {}
+        }
+    }
+    let mut v = serde_json::to_value(GasCosts::default()).expect("ser");
+    walk(&mut v, rng, hi);
+    serde_json::from_value(v).expect("de")
+}
+
+/// C26: the programs of `prog` under the unit schedule and seeded random schedules, with limits that run out mid-program
+fn gas(o: &Opts, out: &mut Out, run: &mut u64) {
+    let thorough = o.thorough();
+    let mut rng = o.rng(26);
+    let n = if thorough { 900 } else { 90 };
+    for k in 0..n {
+        let mut w = world(2, 0);
+        let costs = if k % 3 == 0 { GasCosts::unit() } else { random_gas(&mut rng, if k % 3 == 1 { 9 } else { 400 }) };
+        w.params.set_gas_costs(costs);
+        let code = gen_program(&mut rng);
+        let data = rbytes(&mut rng, 24);
+        let gas_limit = match rng.gen_range(0..4) { 0 => rng.gen_range(0..60), 1 => rng.gen_range(60..900), _ => 6_000 };
+        let checked = match simple_script(&w, &mut rng, code, data, gas_limit) { Ok(c) => c, Err(_) => continue };
+        *run += 1;
+        out.ev(json!({"ev": "Seg"}));
+        let mut vm = new_vm(&w);
+        record_run(out, *run, &mut vm, &w, checked, json!({"driver": "gas"}), 20_000);
+    }
+}
+
+use fuel_asm::GTFArgs;
+use fuel_types::{canonical::Serialize as _, AssetId, ContractId};
+use fuel_vm::util::test_helpers::TestBuilder;
+use fuel_vm::call::Call;
+
+fn contracts_json(st: &MemoryStorage, ids: &[ContractId], assets: &[AssetId]) -> serde_json::Value {
+    use fuel_vm::storage::{ContractsAssetsStorage, ContractsRawCode};
+    use fuel_storage::StorageAsRef;
+    let mut o = serde_json::Map::new();
+    for id in ids {
+        let code: Vec<u8> = st.storage::<ContractsRawCode>().get(id).ok().flatten().map(|c| c.as_ref().as_ref().to_vec()).unwrap_or_default();
+        let mut bal = serde_json::Map::new();
+        for a in assets {
+            if let Ok(Some(v)) = st.contract_asset_id_balance(id, a) { bal.insert(hx(a), json!(v.to_string())); }
+        }
+        o.insert(hx(id), json!({"code": hx(&code), "bal": serde_json::Value::Object(bal)}));
+    }
+    serde_json::Value::Object(o)
+}
+
+/// callee programs of several shapes (C34): plain return, return data, heap allocation + stores, nested / recursive calls,
+/// revert, panic, attempts to write the caller's frame
+fn callee(rng: &mut StdRng, kind: u32) -> Vec<Instruction> {
+    let r = |k: u8| RegId::new(0x10 + k);
+    let mut p: Vec<Instruction> = vec![];
+    // clobber registers so that a missing restore would show
+    for k in 0..6u8 { p.push(op::movi(r(k), rng.gen_range(0..0x40000))); }
+    p.push(op::lw(r(8), RegId::FP, 73));                 // param a
+    p.push(op::lw(r(9), RegId::FP, 74));                 // param b
+    match kind % 8 {
+        0 => { p.push(op::ret(r(8))); }
+        1 => {                                           // return data of length a from the heap
+            p.push(op::aloc(r(8)));
+            p.push(op::retd(RegId::HP, r(8)));
+        }
+        2 => {                                           // stack frame + stores + log + return
+            p.push(op::cfei(64));
+            p.push(op::sw(RegId::SSP, r(1), 0));
+            p.push(op::sw(RegId::SSP, r(2), 7));
+            p.push(op::movi(r(4), 40)); p.push(op::aloc(r(4)));
+            p.push(op::sb(RegId::HP, r(3), 39));
+            p.push(op::log(r(8), r(9), RegId::BAL, RegId::CGAS));
+            p.push(op::ret(RegId::HP));
+        }
+        3 => {                                           // recursion: call self with a - 1 while a > 0 (call params rebuilt on the heap)
+            p.push(op::jnzf(r(8), RegId::ZERO, 1));      // if a != 0 skip the return
+            p.push(op::ret(RegId::ZERO));
+            p.push(op::ret(RegId::ZERO));                // (padding so the skip lands right)
+            p.push(op::movi(r(4), 48)); p.push(op::aloc(r(4)));
+            p.push(op::mcpi(RegId::HP, RegId::FP, 32));  // to = own id (first 32 bytes of the frame)
+            p.push(op::subi(r(8), r(8), 1));
+            p.push(op::sw(RegId::HP, r(8), 4));          // a - 1
+            p.push(op::sw(RegId::HP, r(9), 5));          // b
+            p.push(op::move_(r(5), RegId::HP));
+            p.push(op::movi(r(4), 32)); p.push(op::aloc(r(4)));   // zero asset id
+            p.push(op::call(r(5), RegId::ZERO, RegId::HP, RegId::CGAS));
+            p.push(op::addi(r(6), RegId::RET, 1));
+            p.push(op::ret(r(6)));
+        }
+        4 => { p.push(op::rvrt(r(8))); }
+        5 => { p.push(op::sw(RegId::ZERO, r(1), 0)); p.push(op::ret(RegId::ONE)); }       // panics: write to address 0
+        6 => {                                           // tries to modify the caller's stack just below its frame
+            p.push(op::subi(r(4), RegId::FP, 8));
+            p.push(op::sw(r(4), r(1), 0));
+            p.push(op::ret(RegId::ONE));
+        }
+        _ => {                                           // gas burner then return
+            p.push(op::movi(r(10), 30));
+            p.push(op::subi(r(10), r(10), 1));
+            p.push(op::jnzb(r(10), RegId::ZERO, 0));
+            p.push(op::ret(RegId::CGAS));
+        }
+    }
+    p
+}
+
+/// C34 / C26 / C28: scripts calling deployed contracts with random caller registers, forwarded coins and gas
+fn calls(o: &Opts, out: &mut Out, run: &mut u64) {
+    let thorough = o.thorough();
+    let mut rng = o.rng(34);
+    let n = if thorough { 400 } else { 48 };
+    for k in 0..n {
+        let mut tb = TestBuilder::new(o.seed.wrapping_add(k as u64));
+        let asset: AssetId = if k % 3 == 0 { AssetId::zeroed() } else { rng.gen() };
+        let kind = rng.gen_range(0..8u32);
+        let c1 = tb.setup_contract(callee(&mut rng, kind), if k % 4 == 0 { Some((asset, rng.gen_range(0..1000))) } else { None }, None).contract_id;
+        let k2 = rng.gen_range(0..3u32); let c2 = tb.setup_contract(callee(&mut rng, k2), None, None).contract_id;
+        let not_input: ContractId = rng.gen();
+        let target = match rng.gen_range(0..12) { 0 => not_input, 1 => c2, _ => c1 };
+        let (a, b) = (match kind % 8 { 1 => [0u64, 1, 7, 8, 33, 1000, 70000][rng.gen_range(0..7)], 3 => rng.gen_range(0..if thorough { 30 } else { 6 }), _ => rng.gen_range(0..100) }, rng.gen::<u64>());
+        let amount: u64 = match rng.gen_range(0..5) { 0 => 0, 1 => 1, 2 => 500, 3 => 1_000_000, _ => rng.gen_range(0..2000) };
+        let fwd: u64 = match rng.gen_range(0..6) { 0 => 0, 1 => rng.gen_range(0..300), 2 => u64::MAX, _ => 1_000_000 };
+        let mut data = Call::new(target, a, b).to_bytes();
+        data.extend_from_slice(asset.as_ref());
+        let r = |k: u8| RegId::new(0x10 + k);
+        let mut sc: Vec<Instruction> = vec![];
+        for k in 0..10u8 { sc.push(op::movi(r(20 + k), rng.gen_range(0..0x40000))); }   // caller registers that must survive
+        sc.push(op::cfei(32)); sc.push(op::sw(RegId::SSP, r(21), 0));                    // caller stack content that must survive
+        sc.push(op::gtf_args(r(0), RegId::ZERO, GTFArgs::ScriptData));
+        sc.push(op::addi(r(1), r(0), 48));
+        sc.push(op::movi(r(2), (amount & 0x3ffff) as u32));
+        if fwd == u64::MAX { sc.push(op::move_(r(3), RegId::CGAS)); } else { sc.push(op::movi(r(3), (fwd & 0x3ffff) as u32)); }
+        sc.push(op::call(r(0), r(2), r(1), r(3)));
+        if rng.gen_bool(0.4) { sc.push(op::call(r(0), RegId::ZERO, r(1), r(3))); }       // a second call
+        sc.push(op::lw(r(4), RegId::SSP, 0));
+        sc.push(op::log(RegId::RET, RegId::RETL, r(4), r(25)));
+        sc.push(op::ret(RegId::RET));
+        tb.start_script(sc, data).gas_price(0).script_gas_limit(match rng.gen_range(0..5) { 0 => rng.gen_range(0..2000), _ => 200_000 })
+            .contract_input(c1).contract_input(c2);
+        if amount > 0 || rng.gen_bool(0.5) { tb.coin_input(asset, match rng.gen_range(0..3) { 0 => amount.saturating_sub(1), _ => amount + rng.gen_range(0..50) }); tb.change_output(asset); }
+        tb.fee_input().contract_output(&c1).contract_output(&c2);
+        let checked = match catch(std::panic::AssertUnwindSafe(|| tb.build())) { Ok(c) => c, Err(_) => continue };
+        let mut w = World { params: ConsensusParameters::standard(), gas_price: 0, storage: tb.get_storage().clone(), block_height: 0 };
+        w.block_height = u32::from(tb.get_block_height());
+        *run += 1;
+        out.ev(json!({"ev": "Seg"}));
+        let extra = json!({"driver": "calls", "contracts": contracts_json(&w.storage, &[c1, c2], &[asset, AssetId::zeroed()]),
+                           "inputs": [hx(c1), hx(c2)]});
+        let mut vm = new_vm(&w);
+        record_run(out, *run, &mut vm, &w, checked, extra, 20_000);
+    }
+}
+
+/// a random sequence of asset instructions; `ctx_contract`: runs inside a contract (asset id of forwarded coins at $fp + 32)
+fn asset_ops(rng: &mut StdRng, ctx_contract: bool, other: u8 /* register holding a pointer to another contract id */, n: usize) -> Vec<Instruction> {
+    let r = |k: u8| RegId::new(0x10 + k);
+    let mut p: Vec<Instruction> = vec![];
+    // r30 -> 32 zero bytes (sub id / scratch), r31 -> asset id pointer
+    p.push(op::movi(r(14), 64)); p.push(op::aloc(r(14))); p.push(op::move_(r(30), RegId::HP));
+    if ctx_contract { p.push(op::addi(r(31), RegId::FP, 32)); }
+    for _ in 0..n {
+        let amt = if rng.gen_range(0..14) == 0 { [0u32, 100_000, 501][rng.gen_range(0..3)] } else { [1u32, 1, 2, 7, 100, 250][rng.gen_range(0..6)] };
+        p.push(op::movi(r(15), amt));
+        match rng.gen_range(0..if ctx_contract { 9 } else { 5 }) {
+            0 => p.push(op::tr(RegId::new(other), r(15), r(31))),
+            1 => { p.push(op::movi(r(16), if rng.gen_bool(0.85) { rng.gen_range(1..4) } else { rng.gen_range(0..7) })); p.push(op::tro(r(30), r(16), r(15), r(31))); }
+            2 => { p.push(op::movi(r(17), [0u32, 1, 8, 33][rng.gen_range(0..4)])); p.push(op::smo(r(30), r(30), r(17), r(15))); }
+            3 => p.push(op::bal(r(18), r(31), RegId::new(other))),
+            4 => p.push(op::log(RegId::BAL, r(18), RegId::CGAS, RegId::ZERO)),
+            5 | 6 => p.push(op::mint(r(15), r(30))),
+            7 => { p.push(op::movi(r(15), rng.gen_range(0..3))); p.push(op::burn(r(15), r(30))); }
+            _ => p.push(op::bal(r(18), r(31), RegId::FP)),
+        }
+    }
+    p
+}
+
+/// C27 / C28: scripts and contracts that transfer, mint, burn, send messages, then return / revert / panic
+fn assets(o: &Opts, out: &mut Out, run: &mut u64) {
+    let thorough = o.thorough();
+    let mut rng = o.rng(27);
+    let n = if thorough { 500 } else { 60 };
+    for k in 0..n {
+        let mut tb = TestBuilder::new(o.seed.wrapping_mul(31).wrapping_add(k as u64));
+        let base = AssetId::zeroed();
+        let asset: AssetId = if k % 3 == 0 { base } else { rng.gen() };
+        let r = |k: u8| RegId::new(0x10 + k);
+        // bank contract: asset ops on the forwarded asset, then a terminator
+        let mut bank = vec![op::addi(r(13), RegId::FP, 0)];           // r13 -> own id
+        bank.push(op::lw(r(8), RegId::FP, 73));
+        let nb = rng.gen_range(1..7); bank.extend(asset_ops(&mut rng, true, 0x10 + 13, nb));
+        match rng.gen_range(0..14) { 0 => bank.push(op::rvrt(RegId::ONE)), 1 => bank.push(op::sw(RegId::ZERO, RegId::ONE, 0)), _ => bank.push(op::ret(RegId::BAL)) }
+        let init_bal = if k % 2 == 0 { Some((asset, rng.gen_range(0..1000))) } else { None };
+        let c1 = tb.setup_contract(bank, init_bal, None).contract_id;
+        let c2 = tb.setup_contract(vec![op::ret(RegId::BAL)], if k % 5 == 0 { Some((base, 77)) } else { None }, None).contract_id;
+        let amount: u64 = [0u64, 1, 300, 400, 1000][rng.gen_range(0..5)];
+        let mut data = Call::new(c1, rng.gen_range(0..10), rng.gen()).to_bytes();   // 48
+        data.extend_from_slice(asset.as_ref());                                       // +48: asset id
+        data.extend_from_slice(c2.as_ref());                                          // +80: other contract id
+        let mut sc: Vec<Instruction> = vec![];
+        sc.push(op::gtf_args(r(0), RegId::ZERO, GTFArgs::ScriptData));
+        sc.push(op::addi(r(31), r(0), 48));
+        sc.push(op::addi(r(12), r(0), 80));
+        if rng.gen_bool(0.6) { let ns = rng.gen_range(1..5); sc.extend(asset_ops(&mut rng, false, 0x10 + 12, ns)); sc.push(op::addi(r(31), r(0), 48)); }
+        sc.push(op::movi(r(2), (amount & 0x3ffff) as u32));
+        sc.push(op::call(r(0), r(2), r(31), RegId::CGAS));
+        if rng.gen_bool(0.4) { sc.extend(asset_ops(&mut rng, false, 0x10 + 12, 2)); }
+        match rng.gen_range(0..10) { 0 => sc.push(op::rvrt(RegId::ONE)), _ => sc.push(op::ret(RegId::RET)) }
+        tb.start_script(sc, data).gas_price(0).script_gas_limit(match rng.gen_range(0..10) { 0 => rng.gen_range(100..3000), _ => 400_000 })
+            .contract_input(c1).contract_input(c2)
+            .coin_input(asset, [499u64, 1500, 200_000, 200_000][rng.gen_range(0..4)]);
+        if asset != base { tb.coin_input(base, rng.gen_range(1..2000)); }
+        tb.change_output(asset);
+        if asset != base && rng.gen_bool(0.7) { tb.change_output(base); }
+        for _ in 0..rng.gen_range(1..4) { tb.variable_output(AssetId::zeroed()); }
+        tb.fee_input().contract_output(&c1).contract_output(&c2);
+        let checked = match catch(std::panic::AssertUnwindSafe(|| tb.build())) { Ok(c) => c, Err(_) => continue };
+        let w = World { params: ConsensusParameters::standard(), gas_price: 0, storage: tb.get_storage().clone(), block_height: u32::from(tb.get_block_height()) };
+        *run += 1;
+        out.ev(json!({"ev": "Seg"}));
+        let minted: AssetId = { use fuel_tx::ContractIdExt; c1.default_asset() };
+        let assets_watch = [asset, base, minted];
+        let extra = json!({"driver": "assets", "contracts": contracts_json(&w.storage, &[c1, c2], &assets_watch), "inputs": [hx(c1), hx(c2)]});
+        let mut vm = new_vm(&w);
+        let post = move |vm: &Vm<MemoryStorage>| -> serde_json::Value {
+            let st: &MemoryStorage = vm.as_ref();
+            json!({"contracts": contracts_json(st, &[c1, c2], &assets_watch)})
+        };
+        record_run_with(out, *run, &mut vm, &w, checked, extra, 20_000, Some(&post));
+    }
+}
+
+fn storage_dump(st: &MemoryStorage, ids: &[ContractId], assets: &[AssetId]) -> serde_json::Value {
+    let mut slots: Vec<(String, String)> = st.all_contract_state().map(|(k, v)| (hx(k.as_ref() as &[u8]), hx(v.as_ref() as &[u8]))).collect();
+    slots.sort();
+    json!({"slots": slots.into_iter().map(|(k, v)| json!([k, v])).collect::<Vec<_>>(), "contracts": contracts_json(st, ids, assets)})
+}
+
+/// C28: the in-memory client leaves contract storage (slots and balances) exactly as it was when the transaction reverts or panics;
+/// C28: the receipt limit — a LOG loop towards 65 535 receipts (thorough tier) summarised without per-step events
+fn client(o: &Opts, out: &mut Out, run: &mut u64) {
+    use fuel_vm::memory_client::MemoryClient;
+    let thorough = o.thorough();
+    let mut rng = o.rng(28);
+    let n = if thorough { 300 } else { 40 };
+    out.ev(json!({"ev": "Seg"}));
+    for k in 0..n {
+        let mut tb = TestBuilder::new(o.seed.wrapping_mul(77).wrapping_add(k as u64));
+        let r = |k: u8| RegId::new(0x10 + k);
+        let mut code = vec![op::movi(r(4), 64), op::aloc(r(4)), op::movi(r(1), rng.gen_range(1..0x40000)), op::sb(RegId::HP, r(1), 31)];
+        for _ in 0..rng.gen_range(1..4) {
+            match rng.gen_range(0..3) {
+                0 => code.push(op::sww(RegId::HP, r(2), r(1))),
+                1 => { code.push(op::movi(r(5), rng.gen_range(1..50))); code.push(op::mint(r(5), RegId::HP)); }
+                _ => { code.push(op::addi(r(6), RegId::HP, 32)); code.push(op::swwq(RegId::HP, r(2), r(6), RegId::ONE)); }
+            }
+        }
+        let how = rng.gen_range(0..4);
+        match how { 0 => code.push(op::rvrt(RegId::ONE)), 1 => code.push(op::sw(RegId::ZERO, RegId::ONE, 0)), _ => code.push(op::ret(RegId::ONE)) }
+        let c1 = tb.setup_contract(code, None, None).contract_id;
+        let data = Call::new(c1, 0, 0).to_bytes();
+        let mut sc = vec![op::gtf_args(r(0), RegId::ZERO, GTFArgs::ScriptData), op::call(r(0), RegId::ZERO, RegId::ZERO, RegId::CGAS)];
+        if how == 3 { sc.push(op::rvrt(RegId::ONE)); } else { sc.push(op::ret(RegId::ONE)); }
+        tb.start_script(sc, data).gas_price(0).script_gas_limit(if rng.gen_range(0..6) == 0 { rng.gen_range(200..4000) } else { 1_000_000 })
+            .contract_input(c1).fee_input().contract_output(&c1);
+        let checked = match catch(std::panic::AssertUnwindSafe(|| tb.build())) { Ok(c) => c, Err(_) => continue };
+        let minted: AssetId = { use fuel_tx::ContractIdExt; c1.default_asset() };
+        let mut minted2 = [0u8; 32]; minted2.copy_from_slice(minted.as_ref());
+        let params = ConsensusParameters::standard();
+        let mut st0 = tb.get_storage().clone();
+        st0.commit(); // the deployed contracts are the committed baseline the client must return to
+        let mut cl: MemoryClient<MemoryInstance> = MemoryClient::new(MemoryInstance::new(), st0, InterpreterParams::new(0, &params));
+        let watch_assets = [minted, AssetId::zeroed()];
+        let before = storage_dump(cl.as_ref(), &[c1], &watch_assets);
+        let res = catch(std::panic::AssertUnwindSafe(|| { cl.transact(checked); cl.state_transition().map(|s| s.should_revert()) }));
+        *run += 1;
+        match res {
+            Ok(Some(rev)) => {
+                let after = storage_dump(cl.as_ref(), &[c1], &watch_assets);
+                let kinds: Vec<String> = cl.receipts().unwrap_or_default().iter().map(|r| receipt_json(r)["kind"].as_str().unwrap().to_string()).collect();
+                out.ev(json!({"ev": "ClientTx", "run": *run, "reverted": rev, "before": before, "after": after, "kinds": kinds}));
+            }
+            Ok(None) => out.ev(json!({"ev": "ClientTx", "run": *run, "reverted": true, "before": before, "after": storage_dump(cl.as_ref(), &[c1], &watch_assets), "kinds": [], "novm": true})),
+            Err(m) => out.ev(json!({"ev": "HostPanic", "where": "MemoryClient::transact", "msg": m})),
+        }
+    }
+    // receipt limit: LOG in a tight loop with plenty of gas
+    let loops: Vec<u32> = if thorough { vec![10, 65_530, 65_533, 65_534, 65_535, 65_540] } else { vec![10, 65_534] };
+    for cnt in loops {
+        let mut tb = TestBuilder::new(o.seed.wrapping_add(cnt as u64));
+        let r = |k: u8| RegId::new(0x10 + k);
+        let sc = vec![op::movi(r(0), cnt & 0x3ffff), op::log(r(0), RegId::ZERO, RegId::ZERO, RegId::ZERO), op::subi(r(0), r(0), 1), op::jnzb(r(0), RegId::ZERO, 1), op::ret(RegId::ONE)];
+        tb.start_script(sc, vec![]).gas_price(0).script_gas_limit(50_000_000).fee_input();
+        let checked = match catch(std::panic::AssertUnwindSafe(|| tb.build())) { Ok(c) => c, Err(_) => continue };
+        let params = ConsensusParameters::standard();
+        let mut cl: MemoryClient<MemoryInstance> = MemoryClient::new(MemoryInstance::new(), tb.get_storage().clone(), InterpreterParams::new(0, &params));
+        let res = catch(std::panic::AssertUnwindSafe(|| { cl.transact(checked); }));
+        *run += 1;
+        match res {
+            Ok(()) => {
+                let rc = cl.receipts().unwrap_or_default();
+                let tail: Vec<serde_json::Value> = rc.iter().rev().take(2).rev().map(receipt_json).collect();
+                out.ev(json!({"ev": "RunSummary", "run": *run, "loops": cnt, "nrc": rc.len(), "logs": rc.iter().filter(|r| matches!(r, fuel_tx::Receipt::Log { .. })).count(), "tail": tail}));
+            }
+            Err(m) => out.ev(json!({"ev": "HostPanic", "where": "receipt-limit", "msg": m})),
+        }
     }
 }
